@@ -12,6 +12,7 @@ CONSTANTS
   Ops = {"submit", "cancel", "release", "status"}
   FindUnitHoldsRLock = FALSE
   TruncFirst = FALSE
+  UnregFirst = FALSE
   KF_EmptyStatus = FALSE
   KF_CancelOverS = FALSE
   CancelKeepsSucceeded = TRUE
